@@ -49,7 +49,7 @@ def run(ctx, report: Report) -> None:
         raise AnalysisError(f'only {len(classes)} Immutable classes found (anchor vanished)')
 
     # ---- R1 --------------------------------------------------------------------------------------------------
-    r1 = report.rule('C15-R1', 'the mutation surface is closed', floor=7)
+    r1 = report.rule('C15-R1', 'the mutation surface is closed', floor=3)
     for meth in ('__setattr__', '__delattr__'):
         fnq = f'Immutable.{meth}'
         fn = tmod.functions.get(fnq)
@@ -100,7 +100,7 @@ def run(ctx, report: Report) -> None:
                          f'the namespaces/custom maps inside compiled selectors and cache keys alias mutable user state')
 
     # ---- R2 --------------------------------------------------------------------------------------------------
-    r2 = report.rule('C15-R2', 'one field list: slots = constructor keywords = parameter order; pickle via constructor', floor=9)
+    r2 = report.rule('C15-R2', 'one field list: slots = constructor keywords = parameter order; pickle via constructor', floor=4)
     registered = set()
     for mn, mod in src.mods.items():
         for c in [n for n in ast.walk(mod.tree) if isinstance(n, ast.Call)]:
@@ -133,7 +133,7 @@ def run(ctx, report: Report) -> None:
     immutable_table(ctx, r2, classes[1:])
 
     # ---- R3 --------------------------------------------------------------------------------------------------
-    r3 = report.rule('C15-R3', 'contents are frozen; map hash is order independent', floor=19)
+    r3 = report.rule('C15-R3', 'contents are frozen; map hash is order independent', floor=9)
     for c in classes[1:]:
         mn, _, cn = c.partition('.')
         mod = src.mods[mn]
@@ -223,7 +223,7 @@ def run(ctx, report: Report) -> None:
         r3.instance({'class': c, 'defines___eq__': has_eq}, key=c + '-eq')
 
     # ---- R4 --------------------------------------------------------------------------------------------------
-    r4 = report.rule('C15-R4', 'cache key completeness and pass-through guards', floor=25)
+    r4 = report.rule('C15-R4', 'cache key completeness and pass-through guards', floor=12)
     imod, cfn = src.func('__init__.compile')
     pmod, cached = src.func('css_parser._cached_css_compile')
     decos = [d for d in cached.decorator_list if isinstance(d, ast.Call) and call_name(d).endswith('lru_cache')]
